@@ -469,6 +469,9 @@ func (ex *Exec) havocAssigns(cc *Contract, m map[string]Val, pre *State) *State 
 		}
 	}
 	for _, cl := range cc.Assigns {
+		if cl.AbruptOnly && !ex.abruptFrame {
+			continue
+		}
 		switch cl.Desig {
 		case "nothing", "script":
 		case "any":
@@ -1023,11 +1026,14 @@ type frameInfo struct {
 }
 
 func (ex *Exec) frameCover() *frameInfo {
-	if ex.frameMemo != nil {
-		return ex.frameMemo
+	if ex.frameMemo == nil {
+		ex.frameMemo = map[bool]*frameInfo{}
+	}
+	if fi := ex.frameMemo[ex.abruptExit]; fi != nil {
+		return fi
 	}
 	fi := &frameInfo{cov: map[string]*frameCov{}}
-	ex.frameMemo = fi
+	ex.frameMemo[ex.abruptExit] = fi
 	cc := ex.con
 	if cc == nil || len(cc.Assigns) == 0 {
 		fi.skip = true
@@ -1067,6 +1073,9 @@ func (ex *Exec) frameCover() *frameInfo {
 		return fi.cov[h]
 	}
 	for _, cl := range cc.Assigns {
+		if cl.AbruptOnly && !ex.abruptExit {
+			continue
+		}
 		switch cl.Desig {
 		case "any":
 			h, err := ex.g.lookupField(e, ex.g.pkgs[cc.PkgDir], cl.AnyT, cl.AnyF)
@@ -1200,6 +1209,9 @@ func (ex *Exec) frameCheck(p token.Pos) {
 		}
 		if fi.scriptFrame && !ex.g.jsPreserved[h] {
 			continue // callers assume nothing about it anyway
+		}
+		if fi.scriptFrame && ex.abruptExit && ex.g.abruptHavoc[h] {
+			continue // not preserved by script that panics
 		}
 		if c := fi.cov[h]; c != nil && c.whole {
 			continue
